@@ -23,8 +23,9 @@ Theorem C16_sheets_in_order_ods : forall c wb,
   exists p, ods_parse_content (ods_events c wb) = Ok p /\ p_sheets p = wb_sheets wb.
 Proof. exact sheets_in_order_ods. Qed.
 
-(* xls: BoundSheet8 records in order (8- or 16-bit names, unused hsState bits), junk records in
-   four places, Date1904 present or not *)
+(* xls: BoundSheet8 records in order (8- or 16-bit names, ANY value of the six unused upper bits of
+   the hsState byte: [ls_hi ch < 64], MS-XLS 2.4.28), junk records in four places, Date1904 present
+   or not *)
 Theorem C16_sheets_in_order_xls : forall show_f64 c wb, xls_legal c wb = true ->
   exists p, xls_parse_workbook show_f64 (xls_stream c wb) = Ok p /\ p_sheets p = wb_sheets wb.
 Proof. exact sheets_in_order_xls. Qed.
@@ -42,8 +43,24 @@ Theorem C16_defined_names_in_order_xls : forall show_f64 c wb, xls_legal c wb = 
   exists p, xls_parse_workbook show_f64 (xls_stream c wb) = Ok p /\ p_names p = spec_names_xls c wb.
 Proof. exact defined_names_in_order_xls. Qed.
 
-(* xlsb: the BrtBundleSh list in order (names, visibility, kind through the relationship lookup),
-   junk records anywhere, 1- and 2-byte record types, 1-4-byte lengths *)
+(* one BoundSheet8 record: hsState is the low 2 bits of its byte, the other six are free *)
+Theorem C16_boundsheet_upper_bits_ignored : forall s ch, ls_legal s ch = true ->
+  xls_sheet_metadata (boundsheet_body (ls_pos ch) (xls_vis_code (m_vis s) + 4 * ls_hi ch)
+                                      (xls_kind_code (m_kind s)) (ls_wide ch) (units_of (m_name s)))
+  = Ok (ls_pos ch, s).
+Proof. exact sheet_metadata_enc. Qed.
+
+(* xlsx / xlsb: the kind of a sheet is the one the Type of its workbook relationship names
+   (transitional or strict worksheet / chartsheet / dialogsheet, xlMacrosheet / xlIntlMacrosheet),
+   whatever the part is called; in [xlsx_legal] / [xlsb_legal] the part name [xs_part] / [bs_part]
+   is ANY string (any folders, any file name) *)
+Theorem C16_kind_from_relationship_type :
+  (forall alt k, xlsx_kind_ok k = true -> kind_of_rel_type (kind_rel_type alt k) = Some k) /\
+  (forall k path, sheet_kind (Some k) path = Some k).
+Proof. split; [exact kind_of_rel_type_enc|reflexivity]. Qed.
+
+(* xlsb: the BrtBundleSh list in order (names, visibility, kind through the relationship lookup:
+   the relationship TYPE), junk records anywhere, 1- and 2-byte record types, 1-4-byte lengths *)
 Theorem C16_sheets_in_order_xlsb : forall show_f64 c wb rjunk,
   xlsb_legal c wb = true -> forallb junk_ok_brels rjunk = true ->
   exists p, xlsb_open show_f64 (xlsb_rels_events rjunk (bc_rels c)) (xlsb_workbook_bin c wb) = Ok p /\
@@ -236,3 +253,5 @@ Print Assumptions C16_date_flag_reaches_cells_xlsx.
 Print Assumptions C16_date_flag_threaded_xls.
 Print Assumptions C16_date_flag_threaded_xlsb.
 Print Assumptions C16_tables_injective.
+Print Assumptions C16_boundsheet_upper_bits_ignored.
+Print Assumptions C16_kind_from_relationship_type.
